@@ -12,12 +12,14 @@ CLAIMED = {
     # pid: (level text, level note, technique, design_ref)
     "C01": ("Theorems for ALL programs of the HOAS model (any nesting of dist/@gen/Cond, Vmap/Scan via compile), all arguments, all outcomes of all draws: "
             "assess = sum of site log-probabilities + return value (C01_assess_is_density); every trace of simulate has score = -density of its choices and the right "
-            "return value (C01_simulate_coherent); address collisions raise. The 'distributed according to that density' (law) clause is not mechanised (partial). "
+            "return value (C01_simulate_coherent); address collisions raise. The law clause is mechanised for finite discrete Cond-free programs (any nesting of dist/@gen/Vmap/Scan): "
+            "simulate produces the values of a run-determining choice map with probability 2^assess (C01_simulate_law, via the importance identity of Lemmas/Law.v); for Cond programs it is not (partial). "
             "Correspondence: random programs run on implementation and model, eager and jit.",
             GFI_NOTE, "Coq proof by mutual induction over program syntax + differential correspondence (vm_compute)", "7/C01"),
     "C02": ("Theorem C02_generate for all programs/constraints/outcomes: coherent trace, every constrained visited site holds its constrained value, "
             "weight = sum of log-probabilities of exactly the constrained sites; corollaries none=>0, all=>density, unbound sub-call contributes 0. "
-            "The unbiasedness-of-exp(weight) clause is not mechanised (partial).",
+            "Proper weighting (C02_importance_identity, C02_weight_unbiased): for every Cond-free program, every constraint over a finite outcome universe and every test function G, "
+            "E_generate[exp(w) G(trace)] = E_simulate[1{constraints hold} G(trace)] in a finite-support expectation semantics of the sampling monad (exact rationals); Cond programs are excluded (partial).",
             GFI_NOTE, "Coq proof by mutual induction over program syntax + differential correspondence (vm_compute)", "7/C02"),
     "C03": ("Theorems for all programs: the updated trace is coherent under the new arguments; weight = log p(new) - log p(old) (static address skeleton), "
             "including Cond flips (after the fix commit); telescoping. The frame/discard/round-trip clauses are judged per case by the correspondence "
@@ -127,8 +129,8 @@ CLAIMED = {
             "Coq proof (ring/field identities, induction on leapfrog count) + differential correspondence on scripted kernels (vm_compute)", "7/C09"),
     "C10": ("Theorems for ALL targets/proposals/constraints/outcomes: per-particle log weight of init/extend = log p(choices, obs) - log q(proposed or unconstrained choices) "
             "(default proposal: C10_default_weight; custom proposal with merge precedence: C10_custom_weight / C10_extend_custom_weight), rejuvenation keeps weights for any kernel, "
-            "resampling keeps exp(lml) for any index vector. The expectation statement (exp(lml) unbiased for the evidence) is NOT mechanised (partial): it needs the finite-support "
-            "expectation semantics that is not built yet. Correspondence: hand-composed pipelines under seed with real dyadic categorical sites; rejuvenation_smc's own control "
+            "resampling keeps exp(lml) for any index vector. Unbiasedness of the evidence estimate is mechanised for init with the default proposal (C10_init_estimate_unbiased: N independent particles, "
+            "finite discrete Cond-free targets, E[mean exp(w_i)] = P(observations)); for extend / resample / rejuvenate pipelines and custom proposals it is NOT (partial). Correspondence: hand-composed pipelines under seed with real dyadic categorical sites; rejuvenation_smc's own control "
             "skeleton (ESS trigger inside cond/scan) is not yet covered by a case type.",
             "Trusted: Coq kernel; model coq/Model/Smc.v (particle-level init/extend/rejuvenate) + Model/Resample.v; harness/worker_smc.py (log weights divided by ln 2 and rounded; "
             "exp(lml) compared within 5e-4 relative in exact rationals). No axioms.",
